@@ -28,7 +28,8 @@ TECHNIQUE = (
 RULE = (
     "case = (data seed, 1500-4000 spectra each with one target and one decoy PSM in random order, pi1 0.3-0.6, 3-6 "
     "features, separation 2-3 sigma, learner, folds 2-5, FDR 0.05/0.1/0.3, optional subset_max_train below the training "
-    "size, optional prediction chunk smaller than the file, workers, one or two jointly modelled collections). Each case reports the FDP at alpha in "
+    "size, optional prediction chunk smaller than the file, workers, one or two jointly modelled collections, optionally the "
+    "returned fold models re-used in reversed order or saved and re-used in a fresh interpreter with another hash seed). Each case reports the FDP at alpha in "
     "{0.01, 0.02, 0.05, 0.1} at PSM and peptide level. Non-trivial: all folds trained and >= 30 targets accepted at "
     "alpha = 0.05. Distinct = distinct canonical JSON."
 )
@@ -47,7 +48,7 @@ MAX_REJECTED_FRACTION = 0.3
 
 def budget(tier):
     if tier == "quick":
-        return {"examples": 400, "shards": 16, "time_s": 90}
+        return {"examples": 320, "shards": 16, "time_s": 100}
     return {"examples": 12000, "shards": 16, "time_s": 1800, "hard_s": 5400}
 
 
@@ -67,6 +68,8 @@ def _case(draw, tier):
         "workers": draw(st.sampled_from([1, 1, 2, 4])),
         "rng": draw(st.integers(0, 10**6)),
         "ncoll": draw(st.sampled_from([1, 1, 2])),
+        # history: feed the returned fold models back (reversed order) / save them and re-use them in a fresh interpreter
+        "reuse": draw(st.sampled_from([None] * 8 + ["reversed", "reversed", "other-process"])),
     }
 
 
@@ -93,9 +96,9 @@ def _simulate(case):
                 pep = null_pool[int(rng.integers(0, n))]
             else:
                 pep = dec_pool[int(rng.integers(0, n))]
-            rows.append((f"psm{len(rows)}", 1 if is_t else -1, 1000 + s + case.get("scan_offset", 0), round(700.0 + s * 0.5, 2), *[round(float(x), 5) for x in feats], pep,
+            rows.append((f"psm{len(rows)}", 1 if is_t else -1, f"run{s % 3}.mzML", 1000 + s + case.get("scan_offset", 0), round(700.0 + s * 0.5, 2), *[round(float(x), 5) for x in feats], pep,
                          "P" if is_t else "decoy_P", corr))
-    cols = ["SpecId", "Label", "ScanNr", "ExpMass"] + [f"f{j}" for j in range(k)] + ["Peptide", "Proteins", "_correct"]
+    cols = ["SpecId", "Label", "filename", "ScanNr", "ExpMass"] + [f"f{j}" for j in range(k)] + ["Peptide", "Proteins", "_correct"]
     df = pd.DataFrame(rows, columns=cols)
     truth = dict(zip(df["SpecId"], df["_correct"]))
     df = df.drop(columns="_correct")
@@ -136,7 +139,7 @@ def check(case):
     offset = 0
     for ci, (df, truth) in enumerate(sims):
         if case["learner"] == "memo":
-            df.insert(4 + case["nfeat"], "rid", np.arange(offset, offset + len(df), dtype=float))
+            df.insert(5 + case["nfeat"], "rid", np.arange(offset, offset + len(df), dtype=float))
         offset += len(df)
     if case["learner"] == "memo":
         feats = feats + ["rid"]
@@ -145,7 +148,7 @@ def check(case):
     with scratch_dir() as tmp:
         dss = []
         for ci, (df, truth) in enumerate(sims):
-            meta = {"key_cols": ["ScanNr", "ExpMass"], "features": feats, "levels": ["Peptide"], "is_target": (df["Label"] == 1).values}
+            meta = {"key_cols": ["filename", "ScanNr", "ExpMass"], "features": feats, "levels": ["Peptide"], "is_target": (df["Label"] == 1).values}
             path = tmp / f"sim{ci}.pin"
             datagen.write_table(df, path)
             dss.append(datagen.build_ondisk(path, df, meta))
@@ -163,6 +166,18 @@ def check(case):
             recorder.drop_log("c04")
         trained = all(m.is_trained for m in models)
         prefixes = [f"c{ci}" for ci in range(ncoll)] if ncoll > 1 else [None]
+        reuse = case.get("reuse") if (trained and ncoll == 1) else None
+        if reuse == "reversed":
+            # the same analysis with the trained fold models handed back in reversed order: every PSM must again be scored
+            # by the model that has not seen it
+            dss = [datagen.build_ondisk(d.filename, sims[i][0], {"key_cols": ["filename", "ScanNr", "ExpMass"], "features": feats, "levels": ["Peptide"],
+                                                                  "is_target": (sims[i][0]["Label"] == 1).values}) for i, d in enumerate(dss)]
+            _, models2, scores, descs = guarded(mokapot.brew, dss, list(reversed(models)), test_fdr=case["fdr"], folds=case["folds"],
+                                                max_workers=case["workers"], rng=case["rng"], allowed=ALLOWED_BREW, sig="brew-reuse")
+        elif reuse == "other-process":
+            scores, descs = _reuse_in_other_process(case, tmp, models, sims[0][0], feats)
+            dss = [datagen.build_ondisk(dss[0].filename, sims[0][0], {"key_cols": ["filename", "ScanNr", "ExpMass"], "features": feats,
+                                                                    "levels": ["Peptide"], "is_target": (sims[0][0]["Label"] == 1).values})]
         guarded(mokapot.assign_confidence, dss, max_workers=1, scores=[np.asarray(s, dtype=float).ravel() for s in scores],
                 descs=list(descs), eval_fdr=case["fdr"], dest_dir=tmp, prefixes=prefixes, decoys=False, peps_algorithm="verif_stub",
                 sig="assign_confidence")
@@ -199,7 +214,50 @@ def check(case):
         classes.append("two-collections")
     if not trained:
         classes.append("fallback-or-untrained")
+    if reuse:
+        classes.append("models-reused-" + reuse)
     return {"nontrivial": trained and r05 >= 30, "classes": classes, "counters": counters}
+
+
+def _reuse_in_other_process(case, tmp, models, df, feats):
+    """Save the fold models, then load them in a fresh interpreter with another PYTHONHASHSEED and score the same file."""
+    import json
+    import os
+    import subprocess
+    import sys
+
+    from core import HARNESS, REPO, Violation
+
+    paths = []
+    for i, m in enumerate(models):
+        p = tmp / f"model_{i}.pkl"
+        m.save(p)
+        paths.append(str(p))
+    job = {"models": paths, "data": str(tmp / "sim0.pin"), "feats": feats, "folds": case["folds"], "fdr": case["fdr"], "rng": case["rng"],
+           "out": str(tmp / "scores.npy")}
+    code = ("import sys; sys.path.insert(0, %r); import core; core.bootstrap(); from props import c04; c04.child_main()" % str(HARNESS))
+    env = dict(os.environ, PYTHONHASHSEED=str(1 + case["seed"] % 4000), VERIF_REPO=REPO)
+    p = subprocess.run([sys.executable, "-c", code], input=json.dumps(job), capture_output=True, text=True, env=env, timeout=900)
+    if p.returncode != 0:
+        raise Violation("reuse-in-other-process-failed", (p.stderr or "")[-400:])
+    return [np.load(job["out"])], [True]
+
+
+def child_main():
+    import json
+    import sys
+    from pathlib import Path
+
+    import mokapot
+    import pandas as pd
+
+    job = json.loads(sys.stdin.read())
+    df = pd.read_csv(job["data"], sep="\t")
+    meta = {"key_cols": ["filename", "ScanNr", "ExpMass"], "features": job["feats"], "levels": ["Peptide"], "is_target": (df["Label"] == 1).values}
+    ds = datagen.build_ondisk(Path(job["data"]), df, meta)
+    models = [mokapot.load_model(Path(m)) for m in job["models"]]
+    _, _, scores, descs = mokapot.brew([ds], models, test_fdr=job["fdr"], folds=job["folds"], rng=job["rng"])
+    np.save(job["out"], np.asarray(scores[0], dtype=float).ravel())
 
 
 def aggregate(tier, merged):
